@@ -97,3 +97,4 @@ pub mod anyhow { pub use super::AnyhowError as Error; }
 pub fn v_anyhow(args: &[VArg]) -> (r: AnyhowError) { AnyhowError }
 #[verifier::external_body]
 pub fn v_cfg_windows() -> bool { cfg!(target_os = "windows") }
+pub mod ct_codecs { pub use super::{B64Error as Error, Base64}; }
